@@ -196,7 +196,8 @@ class Mapping(BasicMapping):
                 if not isinstance(a, (str, Symbol)):
                     raise TypeError('> Expecting str or Symbol')
 
-            _coordinates = [Symbol(u, real=True) for u in coordinates]
+            # a coordinate may be given as a Symbol (InverseMapping passes the logical coordinates): keep its name
+            _coordinates = [Symbol(u.name if isinstance(u, Symbol) else u, real=True) for u in coordinates]
 
         obj._name                = name
         obj._ldim                = ldim
